@@ -94,6 +94,10 @@ func (t *Term) String() string {
 		}
 		sb.WriteString(")")
 		s = sb.String()
+	case "raw":
+		s = t.Name
+	case "raw1":
+		s = "(" + t.Name + " " + t.Args[0].String() + ")"
 	case "constarr":
 		s = "((as const " + string(t.Sort) + ") " + t.Args[0].String() + ")"
 	case "app":
@@ -569,6 +573,9 @@ func (st *symtab) noteSort(s Sort) {
 	}
 	if s.isArray() {
 		st.noteSort(s.elem())
+		return
+	}
+	if strings.HasPrefix(string(s), "(_") || s == "" {
 		return
 	}
 	st.sorts[s] = true
